@@ -18,8 +18,9 @@ Definition view := (bool * bool * bool * bool * list N * bool * bool * list N)%t
     resp: 0 CONNECT, 1 CONNECT_ERROR, 2 anything else (timeout, connection closed)
     message of the CONNECT_ERROR: (kind: 0 none 1 text 2 data, middleware index, verdict code)
     misc: (CONNECT carried the server-side sid, own-room broadcast arrived, calls of the other
-           namespace's middleware, OnAnyConnection runs, EVENT packets seen on a connection that
-           was never admitted, handler seen within the wait) *)
+           namespace's middleware, OnAnyConnection runs, unexpected packets on the connection
+           (a second CONNECT / CONNECT_ERROR for an attempt, DISCONNECT, ACK, any EVENT on a
+           connection that was never admitted), handler seen within the wait) *)
 Definition acase :=
   (list (N * N) * list (N * view) * list view * N * (N * N * N) * view * view
    * (bool * bool * N * N * N * bool))%type.
